@@ -133,6 +133,8 @@ impl<T: ?Sized> Mutex<T> {
     pub fn lock(&self) -> LockResult<MutexGuard<'_, T>> {
         self.raw.acquire(true);
         let g = MutexGuard { lock: self };
+        // an internal failure while the lock is held (the guard is dropped by the unwinding: poison)
+        crate::fault_point("lock.held");
         if self.raw.poisoned.get() { Err(PoisonError::new(g)) } else { Ok(g) }
     }
     pub fn is_poisoned(&self) -> bool {
@@ -204,6 +206,7 @@ impl<T: ?Sized> RwLock<T> {
     pub fn write(&self) -> LockResult<RwLockWriteGuard<'_, T>> {
         self.raw.acquire(true);
         let g = RwLockWriteGuard { lock: self };
+        crate::fault_point("lock.held");
         if self.raw.poisoned.get() { Err(PoisonError::new(g)) } else { Ok(g) }
     }
     pub fn is_poisoned(&self) -> bool {
